@@ -174,7 +174,11 @@ func (c *ShipConnection) CloseConnection(safe bool, code int, reason string) {
 				},
 			}
 
-			_ = c.sendShipModel(model.MsgTypeEnd, closeMessage)
+			// do not use sendShipModel here: it closes the connection if the data connection
+			// is already closed, which would enter shutdownOnce again and deadlock
+			if shipMsg, err := c.buildShipMessage(model.MsgTypeEnd, closeMessage); err == nil {
+				_ = c.dataWriter.WriteMessageToWebsocketConnection(shipMsg)
+			}
 
 			go func() {
 				// wait a bit to let it send
@@ -403,6 +407,11 @@ func (c *ShipConnection) shipMessage(typ byte, model interface{}) ([]byte, error
 		return nil, err
 	}
 
+	return c.buildShipMessage(typ, model)
+}
+
+// transform a SHIP model into EEBUS specific JSON without checking the connection
+func (c *ShipConnection) buildShipMessage(typ byte, model interface{}) ([]byte, error) {
 	if model == nil {
 		return nil, errors.New("invalid data")
 	}
